@@ -151,6 +151,20 @@ impl C15 {
                 st.entries.insert(a, ulp(base, rng.range(-2, 2)));
             }
             mon.facet("selection/near-tie-objectives");
+            // one near-tie case in four: objectives that are infinite (an overflowing objective): the worst
+            // possible value for the set's sense on every sample, or on most; and the best possible on some
+            if rng.chance(1, 4) {
+                let worst = if inst.sense == SENSE_MAX { f64::NEG_INFINITY } else { f64::INFINITY };
+                let all = rng.bool();
+                for st in states.iter_mut() {
+                    if all || rng.chance(2, 3) {
+                        st.entries.insert(a, worst);
+                    } else if rng.chance(1, 4) {
+                        st.entries.insert(a, -worst);
+                    }
+                }
+                mon.facet(if all { "selection/infinite-objectives:all-worst" } else { "selection/infinite-objectives:mixed" });
+            }
         }
         let assign: Vec<(u64, usize)> = ids.iter().map(|i| (*i, rng.usize_below(nstates))).collect();
         let mut samples = v1::Samples::default();
@@ -162,7 +176,17 @@ impl C15 {
         let mut feas_relaxed: BTreeMap<u64, bool> = BTreeMap::new();
         let mut feas_all: BTreeMap<u64, bool> = BTreeMap::new();
         for (id, si) in &assign {
-            let x = sorted_state(&states[*si]);
+            let mut x = sorted_state(&states[*si]);
+            // an infinite objective (the value of x_a itself in the near-tie shape) is represented by a
+            // rational beyond every double; feasibility does not depend on x_a there
+            let mut infinite: Option<Q> = None;
+            if let Some(a) = near_tie {
+                if x[&a].is_infinite() {
+                    let big = num::pow(qi(10), 400);
+                    infinite = Some(if x[&a] > 0.0 { big } else { -big });
+                    x.insert(a, 0.0);
+                }
+            }
             let Ok(rf) = ref_solution(&inst, &x) else {
                 mon.facet("selection/skipped:reference-rejects-state");
                 return;
@@ -183,7 +207,7 @@ impl C15 {
                 }
             }
             let _ = exact_value(&opt_fn(&inst.objective), &x);
-            objective.insert(*id, rf.objective.value.clone());
+            objective.insert(*id, infinite.unwrap_or_else(|| rf.objective.value.clone()));
             feas_relaxed.insert(*id, r);
             feas_all.insert(*id, a);
         }
@@ -312,7 +336,8 @@ impl C15 {
                         if candidates.is_empty() {
                             mon.violation(format!("C15.selection:returned-although-none-feasible:{which}:{shape}"), format!("returned a solution\n{}", ctx()));
                         } else if let Some(b) = &best {
-                            if !f64_eq_q(sol.objective, b) {
+                            let same = if sol.objective.is_infinite() { (sol.objective > 0.0) == (b > &qi(0)) && num::Signed::abs(b) > q(f64::MAX) } else { f64_eq_q(sol.objective, b) };
+                            if !same {
                                 mon.violation(format!("C15.selection:not-optimal:{which}:{shape}"), format!("returned solution has objective {:e}, best feasible is {:e}\n{}", sol.objective, q_to_f64(b), ctx()));
                             }
                         }
@@ -343,7 +368,7 @@ impl Property for C15 {
         }
     }
     fn rule(&self) -> &'static str {
-        "odd cases: as_minimization_problem on a generated instance of either sense: sense, objective (canonically -f iff it was a maximisation), idempotence, all other fields equal, and the ranking of a random pair of assignments in both problems. Even cases: a generated instance of either sense with constraints steered by constants so that every feasibility pattern occurs, 1-8 sample ids (ties through shared states and constant objectives), evaluate_samples; best_feasible_id / best_feasible_unrelaxed_id / best_feasible / best_feasible_unrelaxed on seven shapes of the same set (as produced, rewritten to the legacy feasibility fields, each also after an encode/decode trip, objective table regrouped by value with shuffled ids / one entry per id, legacy + regrouped) against the exact objective and feasibility per sample: feasible in the requested sense, optimal under the set's sense, Err iff no feasible sample. Non-trivial = >= 2 samples / non-constant objective; distinct = fingerprint of (instance, samples)."
+        "odd cases: as_minimization_problem on a generated instance of either sense: sense, objective (canonically -f iff it was a maximisation), idempotence, all other fields equal, and the ranking of a random pair of assignments in both problems. Even cases: a generated instance of either sense with constraints steered by constants so that every feasibility pattern occurs, 1-8 sample ids (ties through shared states and constant objectives, objectives one or two ulps apart, infinite objectives - the worst value for the sense on every sample or on most), evaluate_samples; best_feasible_id / best_feasible_unrelaxed_id / best_feasible / best_feasible_unrelaxed on seven shapes of the same set (as produced, rewritten to the legacy feasibility fields, each also after an encode/decode trip, objective table regrouped by value with shuffled ids / one entry per id, legacy + regrouped) against the exact objective and feasibility per sample: feasible in the requested sense, optimal under the set's sense, Err iff no feasible sample. Non-trivial = >= 2 samples / non-constant objective; distinct = fingerprint of (instance, samples)."
     }
     fn assumptions(&self) -> Vec<&'static str> {
         vec!["selection cases run in the dyadic regime and are skipped (counted) when a constraint value lies within rounding of the feasibility threshold or the objective is not certified exact, so ties are real ties"]
